@@ -891,7 +891,23 @@ class CallMixin:
         """frozenset() / frozenset(<tuple display>): the set whose members are exactly the tuple's items"""
         if not node.args:
             return EmptyLiteral("set")
+        lit = node.args[0]
+        if len(node.args) == 1 and isinstance(lit, ast.List):
+            # frozenset([e0, .., en]) of a LITERAL list of int-valued elements (ints, IntEnum members): the finite set
+            # {e0..en} as a characteristic function (only membership is modelled)
+            s = z3.K(z3.IntSort(), z3.BoolVal(False))
+            for e in lit.elts:
+                v = self.evalv(e, env)
+                if not (sym.is_num(v) or isinstance(v.ty, TEnum)):
+                    raise Unsupported("frozenset element of type %s" % v.ty)
+                s = z3.Store(s, sym.as_int(v), z3.BoolVal(True))
+            return V(TSet(TInt), s)
         v = self.evalv(node.args[0], env)
+        if isinstance(v.ty, TTuple) and v.ty.items and all(isinstance(t, TEnum) or t == TInt for t in v.ty.items) and not all(t == TInt for t in v.ty.items):
+            s = z3.K(z3.IntSort(), z3.BoolVal(False))
+            for i in range(len(v.ty.items)):
+                s = z3.Store(s, sym.as_int(sym.tuple_get(v, i)), z3.BoolVal(True))
+            return V(TSet(TInt), s)
         if isinstance(v.ty, TTuple) and v.ty.items and all(t == v.ty.items[0] for t in v.ty.items) and v.ty.items[0] in (TInt, TBytes):
             ty = TSet(v.ty.items[0])
             t = sym.set_empty(ty).t
